@@ -1174,6 +1174,41 @@ class PrepareAst:
             type_rhs = ObjTraits.gettype(val_rhs)
 
             def overloaded_operator(default_op, reverse_op):
+                # same rules as the Python data model:
+                # the reflected method is only considered for operands of different types,
+                # it is tried first when the type of the right operand is a subclass of the
+                # type of the left operand and provides a different implementation
+                try_reverse = type_rhs is not type_lhs and ObjTraits.hasattr(
+                    type_rhs, reverse_op
+                )
+
+                reverse_first = (
+                    try_reverse
+                    and isinstance(type_lhs, type)
+                    and isinstance(type_rhs, type)
+                    and issubclass(type_rhs, type_lhs)
+                    and (
+                        not ObjTraits.hasattr(type_lhs, reverse_op)
+                        or ObjTraits.getattr(type_rhs, reverse_op)
+                        is not ObjTraits.getattr(type_lhs, reverse_op)
+                    )
+                )
+
+                def call_reverse():
+                    reverse_call = self.subcall(
+                        ObjTraits.getattr(type_rhs, reverse_op), [val_rhs, val_lhs], {}
+                    )
+
+                    reverse_call.add_bound_statement(lhs)
+                    reverse_call.add_bound_statement(rhs)
+                    return reverse_call
+
+                if reverse_first:
+                    reverse_call = call_reverse()
+
+                    if ObjTraits.get(reverse_call.result()) is not NotImplemented:
+                        return reverse_call
+
                 if ObjTraits.hasattr(type_lhs, default_op):
                     call = self.subcall(
                         ObjTraits.getattr(type_lhs, default_op), [val_lhs, val_rhs], {}
@@ -1185,12 +1220,11 @@ class PrepareAst:
                     if ObjTraits.get(call.result()) is not NotImplemented:
                         return call
 
-                reverse_call = self.subcall(
-                    ObjTraits.getattr(type_rhs, reverse_op), [val_rhs, val_lhs], {}
-                )
+                assert (
+                    try_reverse and not reverse_first
+                ), f"operator '{default_op}' not supported for operands '{val_lhs}' and '{val_rhs}'"
 
-                reverse_call.add_bound_statement(lhs)
-                reverse_call.add_bound_statement(rhs)
+                reverse_call = call_reverse()
 
                 assert (
                     ObjTraits.get(reverse_call.result()) is not NotImplemented
